@@ -22,10 +22,15 @@ Literals == {<<"litnum">>, <<"litstr">>, <<"litbytes">>, <<"litnone">>}
 DebugTruthy == {<<"dbg">>, <<"dbg_is">>, <<"dbg_isnot">>, <<"dbg_eq">>}
 DebugOther  == {<<"notdbg">>, <<"dbg_isfalse">>, <<"x_is_true">>, <<"x_eq_true">>, <<"true_is_dbg">>}
 Returns == {<<"retnone">>, <<"retbare">>, <<"retval">>}
+\* statements the -O options remove that also BIND a name (zq), and statements that look zq up.  The interpreter's -O mode drops the
+\* code of an assert / `if __debug__:` block but the name stays a local of the enclosing function (the symbol table is built from the
+\* whole source): a later `zq` in that function raises UnboundLocalError, and a nested `nonlocal zq` still compiles.
+Binders == {<<"dbg_bind">>, <<"assert_bind">>}
+ZqUsers == {<<"use_zq">>, <<"nl_zq">>}
 Symbols == {<<"pass">>, <<"ell">>, <<"imp", "a">>, <<"imp", "b">>, <<"from", "os", "x">>, <<"from", "os", "y">>, <<"from", "sys", "z">>,
             <<"assert">>, <<"dbg_else">>, <<"dbg_elif">>, <<"annval">>, <<"annnoval">>,
             <<"raise0">>, <<"raiseargs">>, <<"raisefrom">>, <<"raiseuser">>, <<"classobj">>, <<"other">>, <<"other2">>}
-           \cup Literals \cup DebugTruthy \cup DebugOther \cup Returns
+           \cup Literals \cup DebugTruthy \cup DebugOther \cup Returns \cup Binders \cup ZqUsers
 
 \* ---- contexts
 Contexts == {"module", "module_top", "function", "function_if", "class", "dataclass", "dataclass_if", "dataclass_second", "dataclass_call", "dataclass_name",
@@ -34,7 +39,9 @@ Contexts == {"module", "module_top", "function", "function_if", "class", "datacl
 IsModule(c)   == c \in {"module", "module_top"}
 InFunction(c) == c \in {"function", "function_if"}
 ClassKind(c)  == CASE c = "class" -> "plain" [] c \in {"dataclass", "dataclass_if", "dataclass_second", "dataclass_call", "dataclass_name", "namedtuple", "namedtuple_name", "typeddict"} -> "sensitive" [] OTHER -> "none"
-WellFormed(c, blk) == \A k \in DOMAIN blk : (blk[k] \in Returns => InFunction(c))
+\* `nonlocal zq` compiles only inside a function that binds zq
+WellFormed(c, blk) == /\ \A k \in DOMAIN blk : (blk[k] \in Returns => InFunction(c))
+                      /\ \A k \in DOMAIN blk : (blk[k] = <<"nl_zq">> => (InFunction(c) /\ \E j \in DOMAIN blk : blk[j] \in Binders))
 
 \* ---- environment facts of the enclosing module
 \* usesDoc: the module reads __doc__ ; shadow: the module rebinds the builtin exception name ; tainted: dynamic name access
@@ -53,6 +60,11 @@ AnnotationRemovable(o, c) == \/ (ClassKind(c) = "none" /\ "ann_variable" \in o)
 BracketsOn(o, e) == "remove_builtin_exception_brackets" \in o /\ ~e.tainted
 BracketsRemovable(o, e) == BracketsOn(o, e) /\ ~e.shadow
 DocstringKept(c, e, blk, i) == c = "module_top" /\ e.usesDoc /\ i = 1 /\ blk[i] = <<"litstr">>
+
+\* removing the binder at i keeps the scope of zq: nothing in the function looks zq up, or another binding of it stays
+ScopeKept(c, blk, i) == \/ ~InFunction(c)
+                        \/ ~\E k \in DOMAIN blk : blk[k] \in ZqUsers
+                        \/ \E j \in DOMAIN blk : j # i /\ blk[j] \in Binders
 
 Steps(o, c, e, blk) ==
     UNION { (
@@ -74,6 +86,8 @@ Steps(o, c, e, blk) ==
       \cup (IF BracketsOn(o, e) /\ blk[i] = <<"raisefrom_nb_exc">> THEN {ReplaceAt(blk, i, <<"raisefrom_nb_both">>)} ELSE {})
       \cup (IF "remove_asserts" \in o /\ blk[i] = <<"assert">> THEN {RemoveAt(blk, i)} ELSE {})
       \cup (IF "remove_debug" \in o /\ blk[i] \in DebugTruthy THEN {RemoveAt(blk, i)} ELSE {})
+      \cup (IF "remove_debug" \in o /\ blk[i] = <<"dbg_bind">> /\ ScopeKept(c, blk, i) THEN {RemoveAt(blk, i)} ELSE {})
+      \cup (IF "remove_asserts" \in o /\ blk[i] = <<"assert_bind">> /\ ScopeKept(c, blk, i) THEN {RemoveAt(blk, i)} ELSE {})
       \cup (IF "remove_debug" \in o /\ blk[i] = <<"dbg_else">> THEN {ReplaceAt(blk, i, <<"nodbg">>)} ELSE {})        \* what -O runs
       \cup (IF "remove_debug" \in o /\ blk[i] = <<"dbg_elif">> THEN {ReplaceAt(blk, i, <<"elif_if">>)} ELSE {})
       ) : i \in DOMAIN blk }
@@ -115,10 +129,10 @@ M_Annotations(o, c, blk) ==
     ELSE Map(blk, LAMBDA st : IF st = <<"annval">> THEN <<"assign">> ELSE IF st = <<"annnoval">> THEN <<"annzero">> ELSE st)
 M_Pass(o, c, blk) == IF "remove_pass" \in o THEN NonEmptyM(c, Filter(blk, LAMBDA st : st # <<"pass">>)) ELSE blk
 M_Object(o, blk) == IF "remove_object_base" \in o THEN Map(blk, LAMBDA st : IF st = <<"classobj">> THEN <<"classnoobj">> ELSE st) ELSE blk
-M_Asserts(o, c, blk) == IF "remove_asserts" \in o THEN NonEmptyM(c, Filter(blk, LAMBDA st : st # <<"assert">>)) ELSE blk
+M_Asserts(o, c, blk) == IF "remove_asserts" \in o THEN NonEmptyM(c, Filter(blk, LAMBDA st : st \notin {<<"assert">>, <<"assert_bind">>})) ELSE blk
 M_Debug(o, c, blk) ==
     IF "remove_debug" \notin o THEN blk
-    ELSE NonEmptyM(c, Map(Filter(blk, LAMBDA st : st \notin DebugTruthy),
+    ELSE NonEmptyM(c, Map(Filter(blk, LAMBDA st : st \notin DebugTruthy \cup {<<"dbg_bind">>}),
                           LAMBDA st : IF st = <<"dbg_else">> THEN <<"nodbg">> ELSE IF st = <<"dbg_elif">> THEN <<"elif_if">> ELSE st))
 M_Return(o, c, blk) ==
     IF "remove_explicit_return_none" \notin o THEN blk
@@ -129,6 +143,11 @@ M_Brackets(o, e, blk) ==
     IF ~BracketsOn(o, e) THEN blk
     ELSE IF e.shadow THEN Map(blk, LAMBDA st : IF st = <<"raisefrom">> THEN <<"raisefrom_nb_cause">> ELSE st)
     ELSE Map(blk, LAMBDA st : IF st = <<"raise0">> THEN <<"raise0_nb">> ELSE IF st = <<"raisefrom">> THEN <<"raisefrom_nb_both">> ELSE st)
+
+\* known deviation of the code from S (finding D27): the binder is removed although the function still looks the name up
+KF_D27(o, c, blk) == /\ InFunction(c) /\ \E k \in DOMAIN blk : blk[k] \in ZqUsers
+                     /\ \/ ("remove_debug" \in o /\ \E k \in DOMAIN blk : blk[k] = <<"dbg_bind">>)
+                        \/ ("remove_asserts" \in o /\ \E k \in DOMAIN blk : blk[k] = <<"assert_bind">>)
 
 MOut(o, c, e, blk) ==
     M_Brackets(o, e, M_Return(o, c, M_Debug(o, c, M_Asserts(o, c, M_Object(o, M_Pass(o, c,
